@@ -375,6 +375,9 @@ impl Response {
                         /* capacity for a single line */
                         "data: ".len() + chunk.len() + "\n\n".len()
                     );
+                    /* an event-stream parser ends a line at CRLF, LF *and* a lone CR:
+                       frame every one of them, or the rest of the line is parsed as a field of its own */
+                    let chunk = if chunk.contains('\r') {chunk.replace("\r\n", "\n").replace('\r', "\n")} else {chunk};
                     for line in chunk.split('\n') {
                         message.extend_from_slice(b"data: ");
                         message.extend_from_slice(line.as_bytes());
